@@ -23,7 +23,7 @@
 //!   split     the batch evaluated in 1-row pieces and in k-row pieces.
 //! Oracle: (a) whenever baseline and an alternative both succeed their per-row values are equal (canonical
 //! rendering: strings as strings across encodings, dictionaries resolved, floats bitwise modulo NaN
-//! payload); (b) every successful evaluation returns one value per row (array of `number_rows`, or a scalar,
+//! payload and the sign of zero); (b) every successful evaluation returns one value per row (array of `number_rows`, or a scalar,
 //! or a 1-row array when all arguments are scalars — the forms `ScalarFunctionExpr` accepts) and the type
 //! promised by `return_field_from_args`; (c) if every row evaluates successfully alone, the whole batch
 //! evaluates successfully with the same per-row values.
@@ -40,17 +40,18 @@
 //! Signatures: a failing case is identified by `<function>:<kind>` (kind = scalars | encoding | dict | sliced |
 //! split-rows | split-k | rows-ok-batch-fails | contract); `known_signature` evaluates the case to obtain it
 //! (result cached for `run`), so an open entry of /verif/known_findings.json excludes exactly the cases of that
-//! function that fail in that way. 14 genuine findings recorded on the unchanged tree (see the final report /
+//! function that fail in that way. 13 genuine findings recorded on the unchanged tree (see the final report /
 //! known_findings.json: make_array / array_append / array_prepend over Null-typed columns return 1 row;
 //! find_in_set LargeUtf8 scalars return Int32 for a promised Int64; array_has_any / array_has_all / map /
 //! array_concat NULL handling differs between arrays, scalars and 1-row batches; to_char(Duration, fmt);
-//! regexp_count compiles an invalid pattern only in multi-row batches; trunc(-0.0) array vs scalar;
+//! regexp_count compiles an invalid pattern only in multi-row batches;
 //! array_concat result type).
 //!
 //! Sensitivity probes (tools/mkpatch + tools/mutrun, `./check C32 quick`):
 //!  Q1 unicode/character_length.rs, Utf8View branch counts bytes instead of characters → VIOLATION after 585
 //!     cases: "character_length(Utf8): encoding=view: row 0 differs: reference = 1, view = 2; arguments: [\"é\"]".
-//!  Q2 string/repeat.rs scalar/scalar fast path uses `max(n, 1)` as the count → see the verdict below.
+//!  Q2 string/repeat.rs scalar/scalar fast path uses `max(n, 1)` as the count → VIOLATION after 8056 cases:
+//!     "repeat(Utf8,I64): scalars=all-constant: row 0 differs: reference (all arrays) = \"\", scalars = \" \"; arguments [\" \", 0]".
 use crate::vals::*;
 use arrow::array::{Array, ArrayRef};
 use arrow::datatypes::{DataType, Field, FieldRef};
